@@ -627,14 +627,30 @@ def job_atheris(col: Collector, seed: int, tier: str, seconds: int, corpus: str)
     run_fuzz_job(col, "sse_stream", seconds, seed, corpus)
 
 
-JOBS = {"atheris": job_atheris, "hyp": job_hyp, "matrix": job_matrix, "loopback": job_loopback}
+def job_cuts(col: Collector, seed: int, tier: str, shard: int, nshards: int) -> None:
+    """one session with non-ASCII text in the endpoint stream, a server notification and an answer on the event stream:
+    every piece of the stream cut at EVERY offset (one cut; a one-byte piece), LF and CRLF"""
+    for crlf in (False, True):
+        for c in range(1, 260):
+            if c % nshards != shard:
+                continue
+            for cuts in ([c], [c, c + 1]):
+                case = {"est": {"kind": "endpoint-event"}, "timeout": 2.0, "requests": [{"id": "r-\u00e9", "mode": "202-then-event", "delta": 0.01}],
+                        "server_msgs": [{"dt": 0.0, "wire": {"jsonrpc": "2.0", "method": "notifications/message", "params": {"level": "info", "data": "n \u00e9\U0001F600\u65e5\u2028"}}}],
+                        "cuts": cuts, "exit": "normal", "crlf": crlf}
+                col.record(case, check(case))
+    if shard == 0:
+        col.exhaustive_parts.append("event stream with non-ASCII payloads cut at every offset 1..259 (single cut, one-byte piece) x LF/CRLF")
+
+
+JOBS = {"atheris": job_atheris, "hyp": job_hyp, "matrix": job_matrix, "loopback": job_loopback, "cuts": job_cuts}
 
 
 def jobs(tier: str):
     if tier == "quick":
-        return [("matrix", {"shard": s, "nshards": 8}) for s in range(8)] + [("hyp", {"shard": s, "n": 120}) for s in range(8)]
+        return [("matrix", {"shard": s, "nshards": 8}) for s in range(8)] + [("hyp", {"shard": s, "n": 120}) for s in range(8)] + [("cuts", {"shard": s, "nshards": 4}) for s in range(4)]
     return (
-        [("matrix", {"shard": s, "nshards": 6}) for s in range(6)] + [("hyp", {"shard": s, "n": 3000}) for s in range(6)] + [("loopback", {"shard": s, "n": 40}) for s in range(4)]
+        [("matrix", {"shard": s, "nshards": 6}) for s in range(6)] + [("hyp", {"shard": s, "n": 3000}) for s in range(6)] + [("loopback", {"shard": s, "n": 40}) for s in range(4)] + [("cuts", {"shard": s, "nshards": 4}) for s in range(4)]
         + [("atheris", {"seconds": 150, "corpus": "seeded"}), ("atheris", {"seconds": 150, "corpus": "empty"})]
     )
 
